@@ -7,8 +7,8 @@ Streams of C14.
      retry   1 = try_duration > 0: a failed request goes back to selecting
      expiry  0 failures not counted (fail_timeout 0) | 1 counted, never expiring within the run | 2 counted, expiring at once
              | 3 counted, the event `w` waits for the oldest outstanding failure to expire
-     events  comma list of  t:x | w | c:t (the client of request t goes away)   where  t:x   (thread t runs to its next blocking point; x = preferred backend / outcome code)
-     out   = snapshots joined by ";" :  label|conns|fails|inflight   (lists joined by ",")
+     events  comma list of  t:x | w | c:t (the client of request t goes away) | hc:m (one health-check pass; bit h of m set = backend h fails its probe)   where  t:x   (thread t runs to its next blocking point; x = preferred backend / outcome code)
+     out   = snapshots joined by ";" :  label|conns|fails|inflight|unhealthyBits   (lists joined by ",")
              label = sel:h none fwd:h lost:h fin:h:o noop final      o = ok err cancel big panic
 -/
 namespace Driver.C14
@@ -24,6 +24,7 @@ def parseExpiry : String → Option Expiry
 def parseEvent (s : String) : Option (Nat × Nat) :=
   match s.splitOn ":" with
   | ["c", t] => do pure (cancelMark + (← t.toNat?), 0)
+  | ["hc", m] => do pure (healthMark, ← m.toNat?)
   | [t, x] => do pure (← t.toNat?, ← x.toNat?)
   | ["w"] => some (waitMark, 0)
   | _ => none
@@ -54,12 +55,14 @@ def showLabel : Label → String
   | .fin h o => s!"fin:{h}:{showOutcome o}"
   | .noop => "noop"
   | .exp h => s!"exp:{h}"
+  | .hc flags => "hc:" ++ String.ofList (flags.map fun b => if b then '1' else '0')
   | .final => "final"
 
 def showInts (l : List Int) : String := ",".intercalate (l.map toString)
 
 def showSnap (s : Snap) : String :=
   showLabel s.label ++ "|" ++ showInts s.conns ++ "|" ++ showInts s.fails ++ "|" ++ Driver.showNatList s.inflight
+    ++ "|" ++ String.ofList (s.unhealthy.map fun b => if b then '1' else '0')
 
 def schedModel (f : List String) : String :=
   match parseCase f with
@@ -85,13 +88,15 @@ def parseLabel (s : String) : Option Label :=
   | ["fin", h, o] => do pure (.fin (← h.toNat?) (← parseOutcome o))
   | ["noop"] => some .noop
   | ["exp", h] => h.toNat?.map .exp
+  | ["hc", bits] => some (.hc (Driver.bits bits))
   | ["final"] => some .final
   | _ => none
 
 def parseSnap (s : String) : Option Snap :=
   match s.splitOn "|" with
-  | [l, c, f, i] => do
-    pure { label := ← parseLabel l, conns := ← parseInts c, fails := ← parseInts f, inflight := ← Driver.natList i }
+  | [l, c, f, i, u] => do
+    pure { label := ← parseLabel l, conns := ← parseInts c, fails := ← parseInts f, inflight := ← Driver.natList i,
+           unhealthy := Driver.bits u }
   | _ => none
 
 def schedJudge (f : List String) (out : String) : String :=
